@@ -1,0 +1,24 @@
+//! Verification wrappers, compiled only with `--cfg iroh_verif`.
+//!
+//! One sub-module per property: re-exports and thin constructors for crate-private items that
+//! the verification harness drives. Nothing here is used by the crate itself.
+#![allow(missing_docs, unreachable_pub, missing_debug_implementations, unused_imports, dead_code, clippy::unwrap_used)]
+
+pub mod c01;
+pub mod c17;
+pub mod c18;
+pub mod c19;
+pub mod c20;
+pub mod c21;
+pub mod c22;
+pub mod c23;
+pub mod c24;
+pub mod c25;
+pub mod c26;
+pub mod c27;
+pub mod c28;
+pub mod c29;
+pub mod c30;
+pub mod c40;
+pub mod c41;
+pub mod c42;
